@@ -885,6 +885,12 @@ func unop(instr *ssa.UnOp, x value) value {
 			return -x
 		}
 	case token.MUL:
+		if sp, ok := x.(symptr); ok {
+			if t, ok := E.tableTerm(sp.seq, sp.idx); ok {
+				return t
+			}
+			return load(mustDeref(instr.X.Type()), &sp.seq[E.index(sp.idx, len(sp.seq))])
+		}
 		return load(mustDeref(instr.X.Type()), x.(*value))
 	case token.NOT:
 		return !x.(bool)
